@@ -38,6 +38,7 @@ type implRes struct {
 	val      string // dump of the final value
 	isErr    bool
 	errText  string
+	errStack string // the stack the error object carries (function texts, innermost first)
 	panicked string
 	budget   bool
 }
@@ -87,6 +88,7 @@ func implEval(x *sess, src string, budget int) (res implRes) {
 	if o.Type() == object.ERROR {
 		res.isErr = true
 		res.errText = o.(object.Error).Value
+		res.errStack = strings.Join(o.(object.Error).Stack, " <- ")
 		return res
 	}
 	res.val = obs.DumpValue(o)
